@@ -56,6 +56,15 @@ package mautil
 //@   ensures-local target != nil && comp == nil ==> !result
 //@   ensures-local count("call:IsPublicAddr") == 1 ==> (result <==> (pub && (count("call:IsIPUnspecified") == 0 || !unspec)))
 //@   ensures-local count("call:IsPublicAddr") == 1 && pub ==> count("call:IsIPUnspecified") == 1
+// which rule applies is decided by the protocol of the first component: the four IP protocols, the four
+// DNS protocols (plain /dns included), everything else passes
+//@   ghost code := 0
+//@   ghost host := 0
+//@   at call Protocol: after ghost code := result.Code
+//@   at call Value: after ghost host := str(result)
+//@   ensures-local comp != nil && (code == multiaddr.P_IP4 || code == multiaddr.P_IP6 || code == multiaddr.P_IP6ZONE || code == multiaddr.P_IPCIDR) ==> count("call:IsPublicAddr") == 1
+//@   ensures-local comp != nil && (code == multiaddr.P_DNS || code == multiaddr.P_DNS4 || code == multiaddr.P_DNS6 || code == multiaddr.P_DNSADDR) ==> count("call:Value") == 1 && (result <==> host != str("localhost"))
+//@   ensures-local comp != nil && !(code == multiaddr.P_IP4 || code == multiaddr.P_IP6 || code == multiaddr.P_IP6ZONE || code == multiaddr.P_IPCIDR || code == multiaddr.P_DNS || code == multiaddr.P_DNS4 || code == multiaddr.P_DNS6 || code == multiaddr.P_DNSADDR) ==> result
 
 //@ func FilterPublic
 //@   property C20
